@@ -1,4 +1,5 @@
 pub mod attr;
 pub mod css;
+pub mod edit;
 pub mod h5;
 pub mod tree;
